@@ -28,7 +28,16 @@ pub fn total(bytes: &[u8], from: Option<Fmt>, to: Fmt, sched: &Sched) -> Result<
 }
 
 pub fn check_bytes(bytes: &[u8], family: &str, from: Option<Fmt>, sched: &Sched, rec: &mut Recorder) -> Result<(), String> {
+    check_bytes_named(bytes, family, None, from, sched, rec)
+}
+
+/// `name`: for adversarial inputs, traced per translation so that a hang is
+/// attributed to one (input, source, target) and confirmed on that alone.
+pub fn check_bytes_named(bytes: &[u8], family: &str, name: Option<&str>, from: Option<Fmt>, sched: &Sched, rec: &mut Recorder) -> Result<(), String> {
     for to in FORMATS {
+        if let (Some(n), true) = (name, rec.tracing()) {
+            rec.trace_case(|| json!({"unit": "adversarial", "name": n, "from": opt_name(from), "sched": sched.to_json(), "to": to.name()}));
+        }
         let (s, r) = total(bytes, from, to, sched)?;
         // non-trivial: some parser got past the very first token, i.e. output was
         // produced, the run succeeded, or the error is not at position 0/1
@@ -190,7 +199,17 @@ fn c04_cli_case(bytes: &[u8], from: Option<Fmt>, to: Fmt, rec: &mut Recorder) ->
             rec.count(Some(hash_bytes(&[bytes, opt_name(from).as_bytes(), to.name().as_bytes(), bin.name().as_bytes(), how.as_bytes()])));
             rec.class(&format!("cli_status:{}", r.status()));
             if r.timed_out {
-                return Err(format!("[cli {} {} {} -> {}] did not terminate within 60 s", bin.name(), how, opt_name(from), to.name()));
+                // a time budget alone decides nothing: confirm with ten times the budget
+                let again = if how == "file" {
+                    run_xt_limit(bin, &a1, &sc.dir, StdinSpec::Null, StdoutSpec::Pipe, vec![], 600)
+                } else {
+                    run_xt_limit(bin, &base, &sc.dir, StdinSpec::Bytes(bytes.to_vec()), StdoutSpec::Pipe, vec![], 600)
+                };
+                if again.timed_out {
+                    return Err(format!("[cli {} {} {} -> {}] no result within 60 s, and none within 600 s when run again", bin.name(), how, opt_name(from), to.name()));
+                }
+                rec.notes.push(format!("slow run (> 60 s, finished within 600 s): {} {} {} -> {}", bin.name(), how, opt_name(from), to.name()));
+                continue;
             }
             if !matches!(r.code, Some(0) | Some(1)) {
                 return Err(format!("[cli {} {} {} -> {}] ended with {}", bin.name(), how, opt_name(from), to.name(), r.brief()));
@@ -219,11 +238,17 @@ impl Check for C04 {
     fn needs_cli(&self) -> bool {
         true
     }
+    fn watchdog_secs(&self) -> u64 {
+        // a single translation of these inputs takes micro- to milliseconds (the
+        // slowest adversarial shapes a few seconds); a minute without any result
+        // is handed to the confirmation run, which allows ten minutes
+        60
+    }
     fn units(&self, tier: Tier) -> Vec<Unit> {
         vec![
             Unit::gen("gen", 16, tier.pick(8000, 250_000)),
             Unit::enumerate("tokens", 16),
-            Unit::enumerate("adversarial", 8),
+            Unit::enumerate("adversarial", 16),
             Unit::gen("refusal", 8, tier.pick(40, 1200)),
             Unit::gen("cli", tier.pick(4, 16), tier.pick(20, 150)),
         ]
@@ -276,10 +301,7 @@ impl Check for C04 {
                                 rec.class("skipped_libyaml_quadratic_flow_depth");
                                 continue;
                             }
-                            if rec.tracing() {
-                                rec.trace_case(|| json!({"unit": "adversarial", "name": name, "from": opt_name(from), "sched": sched.to_json()}));
-                            }
-                            if let Err(m) = check_bytes(&bytes, "adversarial", from, &sched, rec) {
+                            if let Err(m) = check_bytes_named(&bytes, "adversarial", Some(&name), from, &sched, rec) {
                                 rec.fail(format!("adversarial input '{}': {}", name, m), json!({"unit": "adversarial", "name": name, "from": opt_name(from), "sched": sched.to_json()}));
                                 return;
                             }
@@ -358,7 +380,10 @@ impl Check for C04 {
                     return c04_cli_case(&bytes, from, to, &mut rec);
                 }
                 let sched = Sched::from_json(&case["sched"]).ok_or("bad sched")?;
-                check_bytes(&bytes, "adversarial", from, &sched, &mut rec)
+                match case["to"].as_str().and_then(Fmt::from_name) {
+                    Some(to) => total(&bytes, from, to, &sched).map(|_| ()),
+                    None => check_bytes(&bytes, "adversarial", from, &sched, &mut rec),
+                }
             }
             "refusal_tree" => {
                 let tree = Val::from_json(&case["tree"]).ok_or("bad tree")?;
